@@ -1,4 +1,11 @@
 import PycsepVerif.Proofs.Region
+import PycsepVerif.Proofs.RegionBuild
+import PycsepVerif.Proofs.RegionDecimal
+import PycsepVerif.Proofs.RegionArea
+import PycsepVerif.Proofs.RegionTabNz
+import PycsepVerif.Proofs.RegionTabNzc
+import PycsepVerif.Proofs.RegionTabItc
+import PycsepVerif.Proofs.RegionTabCac
 
 /-!
 # C01 — Cartesian regions assign each point to the one half-open cell containing it
@@ -318,6 +325,195 @@ example : (exL.region exCells).allowed (-1 / 2 ^ 60, 3/4) = [some 4, some 2] := 
 example : (exL.region exCells).allowed (0, 3/4) = [some 2] := by decide +kernel
 -- float-like, not exactly regular edges satisfy the hypotheses of `col_eq_iff_sorted` / `col_mono`
 example : ([1/10, 3602879701896397/18014398509481984, 5404319552844595/18014398509481984] : List Rat).Pairwise (· < ·) := by
+  decide +kernel
+
+/-! ### the float construction path (Soft64 layer, `Model/RegionBuild.lean`): which (i, j) the CODE hashes a polygon to
+
+`NearLattice a dh xs` (Proofs/RegionHash.lean): the float edge array `xs` has 2 ≤ n ≤ 2^16 entries, each within 2^-41 of the
+exact lattice `a + k·dh`, with `dh ≥ 2^-20` and all lattice coordinates `a … a + n·dh` inside [−2^10, 2^10].
+(2^-41 = four units in the last place at magnitude 2^10: nearest doubles of a decimal lattice, the output of
+`cleaner_range`, and origins computed as `anchor + k*dh` in binary64 all qualify.) -/
+
+/-- **`bin1d_vec` is exact in the middle half of every bin** (default float64 configuration, closed mode; any edge array,
+stated with the FLOAT step `h = bins[1] − bins[0]` and first edge `a0`): tolerances `|a0|ε, |p|ε ≤ h/2^20`,
+`a0 + (i + 1/4)h ≤ p ≤ a0 + (i + 3/4)h`, `p` below the next edge and below the upper side, `i ≤ 2^16` ⟹ bin i.
+(The "safe" direction of the float formula that C02 leaves to its oracle, for interior points.) -/
+theorem interior_bin_exact {n : ℕ} (hn : 1 < n) (hn53 : (n : ℤ) ≤ 2 ^ 53) (edge : ℕ → ℚ) (p : ℚ) (i : ℕ)
+    (hi : i < n) (hi16 : i ≤ 2 ^ 16)
+    (hh : Soft64.pow2 (-1000) ≤ Bin1d.hOf .f64 n edge)
+    (hat : Bin1d.getTol .f64 (edge 0) ≤ Bin1d.hOf .f64 n edge / 2 ^ 20)
+    (hpt : Bin1d.getTol .f64 p ≤ Bin1d.hOf .f64 n edge / 2 ^ 20)
+    (hlo : edge 0 + ((i : ℚ) + 1 / 4) * Bin1d.hOf .f64 n edge ≤ p)
+    (hhi : p ≤ edge 0 + ((i : ℚ) + 3 / 4) * Bin1d.hOf .f64 n edge)
+    (hnext : i + 1 < n → p < edge (i + 1))
+    (htop : p < Bin1d.topOf .f64 n edge) :
+    Bin1d.bin1dCore (Bin1d.cfg64 false) n edge p = (i : ℤ) :=
+  Bin1d.bin1dCore_interior hn hn53 edge p i hi hi16 hh hat hpt hlo hhi hnext htop
+
+/-- a float within 2^-36 of the exact centre of lattice cell i is binned to i by `bin1d_vec(·, xs)` -/
+theorem cell_centre_hash_exact (a dh : ℚ) (xs : List ℚ) (H : NearLattice a dh xs) (i : ℕ) (hi : i < xs.length) (m : ℚ)
+    (hm : |m - (a + ((i : ℚ) + 1 / 2) * dh)| ≤ 1 / 2 ^ 36) :
+    binF xs.toArray m = (i : ℤ) := by
+  rw [binF_eq]; exact hash_axis a dh xs H i hi m hm
+
+/-- **C01 `midpoint_hash_correct`** (DESIGN §4): for a lattice with `dh ≥ 2^-20`, coordinates within ±2^10 and at most 2^16
+columns and rows, the FLOAT midpoint of cell (i, j) — `Polygon.centroid()` of `compute_vertex(o, dhf, eps)` for an origin `o`
+within 2^-41 of the lattice point (i, j) and a float spacing `dhf` within 2^-41 of `dh` — is binned by `bin1d_vec` against the
+float edge arrays `xs`, `ys` to exactly (i, j): the code's hash agrees with the lattice coordinate. -/
+theorem midpoint_hash_correct (ax ay dh : ℚ) (xs ys : List ℚ) (Hx : NearLattice ax dh xs) (Hy : NearLattice ay dh ys)
+    (i j : ℕ) (hi : i < xs.length) (hj : j < ys.length) (o : ℚ × ℚ) (dhf : ℚ)
+    (hox : |o.1 - (ax + (i : ℚ) * dh)| ≤ 1 / 2 ^ 41) (hoy : |o.2 - (ay + (j : ℚ) * dh)| ≤ 1 / 2 ^ 41)
+    (hdh : |dhf - dh| ≤ 1 / 2 ^ 41) :
+    binF xs.toArray (centroidF (computeVertex o dhf Soft64.eps64)).1 = (i : ℤ) ∧
+    binF ys.toArray (centroidF (computeVertex o dhf Soft64.eps64)).2 = (j : ℤ) := by
+  rw [binF_eq, binF_eq]
+  exact ⟨midpoint_hash_axis_x ax dh xs Hx i hi o dhf hox hdh, midpoint_hash_axis_y ay dh ys Hy j hj o dhf hoy hdh⟩
+
+/-- … hence the loop of `_build_bitmask_vec` records polygon k of `from_origins(os, dhf)` at its lattice position (i, j)
+with its own flag: the cell list of the float construction is the cell list the exact-layer theorems above talk about -/
+theorem fromOrigins_hashes_lattice (ax ay dh dhf : ℚ) (os : List (ℚ × ℚ)) (flags : Option (List Bool)) (dec : ℕ × ℕ × ℕ)
+    (Hx : NearLattice ax dh (fromOrigins os dhf flags dec).xs) (Hy : NearLattice ay dh (fromOrigins os dhf flags dec).ys)
+    (hdh : |dhf - dh| ≤ 1 / 2 ^ 41) (k i j : ℕ) (o : ℚ × ℚ) (hk : os[k]? = some o)
+    (hi : i < (fromOrigins os dhf flags dec).xs.length) (hj : j < (fromOrigins os dhf flags dec).ys.length)
+    (hox : |o.1 - (ax + (i : ℚ) * dh)| ≤ 1 / 2 ^ 41) (hoy : |o.2 - (ay + (j : ℚ) * dh)| ≤ 1 / 2 ^ 41) :
+    (fromOrigins os dhf flags dec).cells[k]? = some ⟨i, j, flagOf flags k⟩ ∧
+    (fromOrigins os dhf flags dec).cells.length = os.length ∧
+    (fromOrigins os dhf flags dec).region.Built :=
+  ⟨fromOrigins_cell ax ay dh dhf os flags dec Hx Hy hdh k i j o hk hi hj hox hoy, fromOrigins_cells_length os dhf flags dec, rfl⟩
+
+/-- **end to end, decimal lattices**: let the cell origins be the nearest doubles of `((Sx + i·D)/10^m, (Sy + j·D)/10^m)` for
+lattice coordinates `cs` (any order, holes, duplicates; every side of the `nx × ny` bounding box is touched), the spacing the
+nearest double of `D/10^m`, and let `repr` show m decimals; ranges as in `DecAxis` (m ≤ 22, 2 ≤ nx, ny ≤ 2^16, dh ≥ 2^-20,
+coordinates within ±2^10, |S| + n·D ≤ 2^50). Then the float constructor produces `xs`, `ys` = the nearest doubles of the
+decimal grid (C02 `cleanerRange_exact`) and hashes polygon k to exactly its lattice coordinates `cs[k]`, with its own flag:
+the region the code builds IS the region of the exact-layer theorems. No hypothesis on computed quantities remains. -/
+theorem decimal_lattice_construction (Sx Sy D : ℤ) (m nx ny : ℕ) (cs : List (ℕ × ℕ)) (flags : Option (List Bool))
+    (Ax : DecAxis Sx D m nx) (Ay : DecAxis Sy D m ny)
+    (hin : ∀ c ∈ cs, c.1 < nx ∧ c.2 < ny)
+    (hx0 : 0 ∈ cs.map (·.1)) (hx1 : nx - 1 ∈ cs.map (·.1)) (hy0 : 0 ∈ cs.map (·.2)) (hy1 : ny - 1 ∈ cs.map (·.2)) :
+    (fromOrigins (latticeOrigins Sx Sy D m cs) (dhPt D m) flags (m, m, m)).xs = Bin1d.decimalGrid Sx D m nx ∧
+    (fromOrigins (latticeOrigins Sx Sy D m cs) (dhPt D m) flags (m, m, m)).ys = Bin1d.decimalGrid Sy D m ny ∧
+    (fromOrigins (latticeOrigins Sx Sy D m cs) (dhPt D m) flags (m, m, m)).cells.length = cs.length ∧
+    ∀ k (hk : k < cs.length),
+      (fromOrigins (latticeOrigins Sx Sy D m cs) (dhPt D m) flags (m, m, m)).cells[k]?
+        = some ⟨cs[k].1, cs[k].2, flagOf flags k⟩ :=
+  fromOrigins_decimal Sx Sy D m nx ny cs flags Ax Ay hin hx0 hx1 hy0 hy1
+
+/-- **`from_origins` without `dh`** (regions.py:745-753 after fix d4a1abe, D30): the spacing inferred from the decimal strings of
+the first two origins — which differ by a, b ∈ {−1, 0, 1} steps of `D/10^m`, not both zero (adjacent cells, as the code
+assumes) — is the double nearest to `D/10^m`, i.e. exactly the `dh` of `decimal_lattice_construction`: leaving `dh` out builds
+the same region as passing it. (That `repr` shows the decimals `(S + i·D)/10^m` for their nearest doubles is the model input
+supplied and checked by the harness.) -/
+theorem inferred_spacing_exact (D : ℤ) (m : ℕ) (hD : 0 < D) (r0 r1 : ℚ × ℚ) (a b : ℤ)
+    (ha : a = 0 ∨ a = 1 ∨ a = -1) (hb : b = 0 ∨ b = 1 ∨ b = -1) (hab : a ≠ 0 ∨ b ≠ 0)
+    (hx : r1.1 - r0.1 = (a : ℚ) * ((D : ℚ) / ((10 ^ m : ℕ) : ℚ)))
+    (hy : r1.2 - r0.2 = (b : ℚ) * ((D : ℚ) / ((10 ^ m : ℕ) : ℚ))) :
+    inferDh r0 r1 = dhPt D m :=
+  inferDh_decimal D m hD r0 r1 a b ha hb hab hx hy
+
+/-- labelled tests, kernel-evaluated: on the edge arrays of the shipped NZ, NZ-collection, Italy-collection and
+California-collection regions EVERY column's and row's float midpoint (origin = the edge, dh = 0.1) is hashed to its own index -/
+theorem table_shipped_midpoints :
+    midsOwnBin Bin1d.Tables.nzxRaw dh01 false = true ∧ midsOwnBin Bin1d.Tables.nzyRaw dh01 true = true ∧
+    midsOwnBin Bin1d.Tables.nzcxRaw dh01 false = true ∧ midsOwnBin Bin1d.Tables.nzcyRaw dh01 true = true ∧
+    midsOwnBin Bin1d.Tables.itcxRaw dh01 false = true ∧ midsOwnBin Bin1d.Tables.itcyRaw dh01 true = true ∧
+    midsOwnBin Bin1d.Tables.cacxRaw dh01 false = true ∧ midsOwnBin Bin1d.Tables.cacyRaw dh01 true = true :=
+  ⟨Tables.tabNzX, Tables.tabNzY, Tables.tabNzcX, Tables.tabNzcY, Tables.tabItcX, Tables.tabItcY, Tables.tabCacX, Tables.tabCacY⟩
+
+/-! ### the remaining lookups -/
+
+/-- `get_location_of([k])`, k a polygon number, returns polygon k; a negative index counts from the end (Python list
+indexing); any other index raises IndexError -/
+theorem location_of_index (n k : ℕ) (hk : k < n) : getLocationOf n [(k : ℤ)] = .ok [k] := getLocationOf_nat n k hk
+theorem location_of_negative_index (n k : ℕ) (hk0 : 0 < k) (hk : k ≤ n) : getLocationOf n [-(k : ℤ)] = .ok [n - k] :=
+  getLocationOf_neg n k hk0 hk
+theorem location_index_error (n : ℕ) (z : ℤ) (h : z < -(n : ℤ) ∨ (n : ℤ) ≤ z) : getLocationOf n [z] = .error .indexError :=
+  getLocationOf_out n z h
+
+/-- `origins()` of the region built by `from_origins` are the origins given; `from_dict(to_dict(r))` re-runs the same
+construction on them (same spacing; mask and magnitudes are not part of the dictionary) -/
+theorem origins_roundtrip (os : List (ℚ × ℚ)) (dhf : ℚ) (flags : Option (List Bool)) (dec : ℕ × ℕ × ℕ) (name : String) :
+    (fromOrigins os dhf flags dec).origins = os ∧
+    fromDict (toDict name dhf (fromOrigins os dhf flags dec)) dec = (fromOrigins os dhf none dec, none) := by
+  refine ⟨fromOrigins_origins os dhf flags dec, ?_⟩
+  rw [fromDict_toDict, fromOrigins_origins]
+
+/-- `geographical_area_from_bounds` (hence `get_cell_area`) in any field, with any `pi` and cosine: the code-shaped formula
+with its `==` short-cut equals the closed form `2π·(C(lat2) − C(lat1))·R²·(lon2 − lon1)/360`, `C(lat) = cos((90 − lat)π/180)` -/
+theorem area_eq_closed_form {F : Type} [Field F] (pi : F) (cosF : F → F) (isEq : F → F → Bool)
+    (hEq : ∀ a b, isEq a b = true ↔ a = b) (lon1 lat1 lon2 lat2 : F) :
+    areaFromBounds pi cosF isEq lon1 lat1 lon2 lat2 = areaClosed pi cosF lon1 lat1 lon2 lat2 :=
+  areaFromBounds_eq_closed pi cosF isEq hEq lon1 lat1 lon2 lat2
+
+/-- the area is additive over a partition of a cell into two latitude bands, and into two longitude slices -/
+theorem area_additive {F : Type} [Field F] (pi : F) (cosF : F → F) (isEq : F → F → Bool)
+    (hEq : ∀ a b, isEq a b = true ↔ a = b) (lon1 lon2 lon3 lat1 lat2 lat3 : F) :
+    areaFromBounds pi cosF isEq lon1 lat1 lon2 lat2 + areaFromBounds pi cosF isEq lon1 lat2 lon2 lat3
+      = areaFromBounds pi cosF isEq lon1 lat1 lon2 lat3 ∧
+    areaFromBounds pi cosF isEq lon1 lat1 lon2 lat2 + areaFromBounds pi cosF isEq lon2 lat1 lon3 lat2
+      = areaFromBounds pi cosF isEq lon1 lat1 lon3 lat2 :=
+  ⟨area_additive_lat pi cosF isEq hEq lon1 lon2 lat1 lat2 lat3, area_additive_lon pi cosF isEq hEq lon1 lon2 lon3 lat1 lat2⟩
+
+/-- over ℝ with the real π and cosine a cell with `lon1 < lon2`, `−90 ≤ lat1 < lat2 ≤ 90` has positive area -/
+theorem area_pos (isEq : ℝ → ℝ → Bool) (hEq : ∀ a b, isEq a b = true ↔ a = b) (lon1 lat1 lon2 lat2 : ℝ)
+    (hlon : lon1 < lon2) (h1 : -90 ≤ lat1) (h12 : lat1 < lat2) (h2 : lat2 ≤ 90) :
+    0 < areaFromBounds Real.pi Real.cos isEq lon1 lat1 lon2 lat2 :=
+  area_pos_real isEq hEq lon1 lat1 lon2 lat2 hlon h1 h12 h2
+
+/-! ### the hypotheses are satisfiable: real data -/
+
+-- the NZ region's float edge arrays are near the decimal lattice 165.7 + 0.1 k, −47.8 + 0.1 k
+example : NearLattice (1657 / 10) (1 / 10) (Bin1d.ofRaw Bin1d.Tables.nzxRaw) := nearLattice_of_B _ _ _ (by decide +kernel)
+example : NearLattice (-478 / 10) (1 / 10) (Bin1d.ofRaw Bin1d.Tables.nzyRaw) := nearLattice_of_B _ _ _ (by decide +kernel)
+
+/-- a 3 × 2 lattice anchored at (0.3, −0.2) with dh = 0.1 and a hole, origins as nearest doubles, `repr` decimals (1, 1, 1) -/
+def exOrigins : List (ℚ × ℚ) :=
+  [(Soft64.fl64 (3 / 10), Soft64.fl64 (-2 / 10)), (Soft64.fl64 (5 / 10), Soft64.fl64 (-2 / 10)),
+   (Soft64.fl64 (4 / 10), Soft64.fl64 (-1 / 10)), (Soft64.fl64 (3 / 10), Soft64.fl64 (-1 / 10))]
+
+example : NearLattice (3 / 10) (1 / 10) (fromOrigins exOrigins dh01 none (1, 1, 1)).xs := nearLattice_of_B _ _ _ (by decide +kernel)
+example : NearLattice (-2 / 10) (1 / 10) (fromOrigins exOrigins dh01 none (1, 1, 1)).ys := nearLattice_of_B _ _ _ (by decide +kernel)
+-- … and the float construction indeed records the four polygons at columns 0, 2, 1, 0 and rows 0, 0, 1, 1
+example : (fromOrigins exOrigins dh01 none (1, 1, 1)).cells = [⟨0, 0, true⟩, ⟨2, 0, true⟩, ⟨1, 1, true⟩, ⟨0, 1, true⟩] := by
+  decide +kernel
+example : (fromOrigins exOrigins dh01 none (1, 1, 1)).xs.length = 3 ∧ (fromOrigins exOrigins dh01 none (1, 1, 1)).ys.length = 2 := by
+  decide +kernel
+-- the hypotheses of `decimal_lattice_construction`: the 3 × 2 lattice above is Sx = 3, Sy = −2, D = 1, m = 1
+example : DecAxis 3 1 1 3 := ⟨by norm_num, by norm_num, by norm_num, by norm_num, by norm_num, by norm_num, by norm_num, by norm_num⟩
+example : DecAxis (-2) 1 1 2 := ⟨by norm_num, by norm_num, by norm_num, by norm_num, by norm_num, by norm_num, by norm_num, by norm_num⟩
+example : latticeOrigins 3 (-2) 1 1 [(0, 0), (2, 0), (1, 1), (0, 1)] = exOrigins := by decide +kernel
+example : dhPt 1 1 = dh01 := by decide +kernel
+-- the NZ testing region: 135 × 139 columns / rows at (1657 + i)/10, (−478 + j)/10
+example : DecAxis 1657 1 1 135 := ⟨by norm_num, by norm_num, by norm_num, by norm_num, by norm_num, by norm_num, by norm_num, by norm_num⟩
+example : DecAxis (-478) 1 1 139 := ⟨by norm_num, by norm_num, by norm_num, by norm_num, by norm_num, by norm_num, by norm_num, by norm_num⟩
+-- a polygon whose midpoint falls outside the bounding box wraps around to the last column and stays masked (numpy a[-1])
+example : cellOfHash 5 4 (-1) 2 true = ⟨4, 2, false⟩ := by decide
+example : getLocationOf 5 [0, -1, 4] = .ok [0, 4, 4] := by decide
+example : getLocationOf 5 [5] = .error .indexError := by decide
+
+/-! ### `from_origins(origins)` WITHOUT `dh` (D30, fixed by d4a1abe) -/
+
+/-- the witness of D30: origins −9.6, −9.5, −9.4 × 10.0, 10.1 (nearest doubles) -/
+def obsOrigins : List (ℚ × ℚ) :=
+  [(Soft64.fl64 (-96 / 10), 10), (Soft64.fl64 (-95 / 10), 10), (Soft64.fl64 (-94 / 10), 10),
+   (Soft64.fl64 (-96 / 10), Soft64.fl64 (101 / 10)), (Soft64.fl64 (-95 / 10), Soft64.fl64 (101 / 10)),
+   (Soft64.fl64 (-94 / 10), Soft64.fl64 (101 / 10))]
+
+-- the repaired code: the spacing is inferred from the decimal strings −9.6, 10.0 and −9.5, 10.0 → exactly the float 0.1 …
+example : inferDh (-96 / 10, 10) (-95 / 10, 10) = dh01 := by decide +kernel
+-- … the edges are the nearest doubles of −9.6, −9.5, −9.4 / 10.0, 10.1, every polygon sits at its lattice position and the
+-- region's own first origin is found in column 0
+example : (fromOrigins obsOrigins (inferDh (-96 / 10, 10) (-95 / 10, 10)) none (1, 1, 1)).xs = Bin1d.decimalGrid (-96) 1 1 3 ∧
+    (fromOrigins obsOrigins (inferDh (-96 / 10, 10) (-95 / 10, 10)) none (1, 1, 1)).ys = Bin1d.decimalGrid 100 1 1 2 ∧
+    (fromOrigins obsOrigins (inferDh (-96 / 10, 10) (-95 / 10, 10)) none (1, 1, 1)).cells =
+      [⟨0, 0, true⟩, ⟨1, 0, true⟩, ⟨2, 0, true⟩, ⟨0, 1, true⟩, ⟨1, 1, true⟩, ⟨2, 1, true⟩] ∧
+    binF (fromOrigins obsOrigins (inferDh (-96 / 10, 10) (-95 / 10, 10)) none (1, 1, 1)).xs.toArray (Soft64.fl64 (-96 / 10)) = 0 := by
+  decide +kernel
+-- HISTORICAL witness (code before d4a1abe, `inferDhFloat`): the float difference −9.5 − (−9.6) = 0.09999999999999964 (17 decimals)
+-- sent `cleaner_range` down its fallback path with scale = 1/dh; every edge was displaced by ~3·10^-14, the region's own origin
+-- −9.6 lay below xs[0] and was reported outside
+example : Soft64.fl64 (-96 / 10) < ((fromOrigins obsOrigins (inferDhFloat obsOrigins) none (1, 1, 17)).xs.headD 0) ∧
+    binF (fromOrigins obsOrigins (inferDhFloat obsOrigins) none (1, 1, 17)).xs.toArray (Soft64.fl64 (-96 / 10)) = -1 := by
   decide +kernel
 
 end Region
